@@ -23,6 +23,9 @@ const (
 	kStructSlice = "structslice" // []struct
 	kStructMap   = "structmap"   // map[string]struct
 	kEmbed       = "embed"       // embedded (anonymous) struct
+	// further maps around a struct (their keys are also drawn from the field names, see nameKeys)
+	kStructPtrMap   = "structptrmap"   // map[string]*struct
+	kStructSliceMap = "structslicemap" // map[string][]struct
 	// nested sequences
 	kIntSlice2    = "intslice2"    // [][]int
 	kStrSlice2    = "strslice2"    // [][]string
@@ -45,9 +48,11 @@ func isScalarKind(k string) bool {
 
 var simpleKinds = []string{kInt, kInt64, kUint8, kFloat64, kString, kBool, kPtrInt, kStrSlice, kIntMap}
 var compositeKinds = []string{kStruct, kStructSlice, kStructMap, kEmbed}
+var mapCompositeKinds = []string{kStructPtrMap, kStructSliceMap}
 
 func isComposite(k string) bool {
-	return k == kStruct || k == kStructSlice || k == kStructMap || k == kEmbed || k == kStructSlice2 || k == kDeep
+	return k == kStruct || k == kStructSlice || k == kStructMap || k == kEmbed || k == kStructSlice2 || k == kDeep ||
+		k == kStructPtrMap || k == kStructSliceMap
 }
 
 // FieldSpec describes one struct field; StructSpec one struct type (built with reflect.StructOf).
@@ -165,6 +170,10 @@ func (s *StructSpec) Type() reflect.Type {
 			sf.Type = reflect.SliceOf(f.Inner.Type())
 		case kStructMap:
 			sf.Type = reflect.MapOf(stringT, f.Inner.Type())
+		case kStructPtrMap:
+			sf.Type = reflect.MapOf(stringT, reflect.PointerTo(f.Inner.Type()))
+		case kStructSliceMap:
+			sf.Type = reflect.MapOf(stringT, reflect.SliceOf(f.Inner.Type()))
 		case kStructSlice2:
 			sf.Type = reflect.SliceOf(reflect.SliceOf(f.Inner.Type()))
 		case kDeep:
@@ -355,6 +364,24 @@ func enumerateTypes(fam string, thorough bool) []typeItem {
 			}
 		}
 	}
+	// further maps around a struct: map[string]*struct, map[string][]struct (L1c) around the small
+	// inner variants, and next to a scalar sibling in both field orders (L2; the sibling's name is
+	// one of the names their map keys are drawn from)
+	for _, k := range mapCompositeKinds {
+		for _, in := range innerVariantsSmall(sl, fam) {
+			for _, o := range compositeOpts(k, fam) {
+				for _, tag := range []string{sl.tag, ""} {
+					out = append(out, typeItem{fam, "L1c", &StructSpec{Fields: []FieldSpec{{Go: sl.goName, Tag: tag, Kind: k, Opt: o, Inner: in}}}, modeFull})
+				}
+			}
+		}
+		s0, s1 := slots[0], slots[1]
+		out = append(out,
+			typeItem{fam, "L2", &StructSpec{Fields: []FieldSpec{{Go: s0.goName, Tag: s0.tag, Kind: kInt},
+				{Go: s1.goName, Tag: s1.tag, Kind: k, Inner: innerVariantsSmall(s1, fam)[0]}}}, modeReduced},
+			typeItem{fam, "L2", &StructSpec{Fields: []FieldSpec{{Go: s0.goName, Tag: s0.tag, Kind: k, Inner: innerVariantsSmall(s0, fam)[0]},
+				{Go: s1.goName, Tag: s1.tag, Kind: kString}}}, modeReduced})
+	}
 	// L2: two fields, each from the pool of its slot.
 	mode := modeReduced
 	for _, a := range pool(0, fam) {
@@ -511,15 +538,22 @@ func dedupe(vs []*Node) []*Node {
 
 // fieldValues: the values (nil = key missing) a field's key ranges over; the first is a value
 // the field's kind accepts, so the first document of every type is a fully valid one.
-func fieldValues(f FieldSpec, mode int) []*Node {
+func fieldValues(f FieldSpec, mode int, ctx []string) []*Node {
 	if !isComposite(f.Kind) {
+		var named []*Node
+		if f.Kind == kIntMap && mode != modeTiny {
+			// map[string]int: keys that are spelled like the field itself or one of its siblings
+			for _, k := range nameKeys(borrowedNames(f, ctx, mode), mode) {
+				named = append(named, obj(kv(k, num("7"))))
+			}
+		}
 		switch mode {
 		case modeFull:
-			return dedupe(append(append([]*Node{validValue(f.Kind)}, atoms()...), nestedValues(f.Kind)...))
+			return dedupe(append(append(append([]*Node{validValue(f.Kind)}, atoms()...), nestedValues(f.Kind)...), named...))
 		case modeFullBase:
-			return dedupe(append([]*Node{validValue(f.Kind)}, atomsOf(false)...))
+			return dedupe(append(append([]*Node{validValue(f.Kind)}, atomsOf(false)...), named...))
 		case modeReduced:
-			return reducedValues(f.Kind)
+			return append(reducedValues(f.Kind), named...)
 		}
 		return tinyValues(f.Kind)
 	}
@@ -553,7 +587,7 @@ func fieldValues(f FieldSpec, mode int) []*Node {
 		}
 		out = append(out, arr(inner[0], inner[0], inner[len(inner)-1]), arr(inner[len(inner)-1], inner[0], inner[0]))
 		out = append(out, arr(), arr(null()), arr(num("7")), arr(inner[0], null()), arr(null(), inner[0]))
-	case kStructMap:
+	case kStructMap, kStructPtrMap:
 		out = append(out, obj(kv("k", inner[0])), nil)
 		for _, d := range inner[1:] {
 			out = append(out, obj(kv("k", d)))
@@ -566,6 +600,34 @@ func fieldValues(f FieldSpec, mode int) []*Node {
 			out = append(out, obj(kv("K1", inner[0]), kv("k2", inner[len(inner)-1])))
 		}
 		out = append(out, obj(), obj(kv("k", null())), obj(kv("k", num("7"))))
+		if mode != modeTiny {
+			last := inner[len(inner)-1]
+			for _, k := range nameKeys(borrowedNames(f, ctx, mode), mode) {
+				out = append(out, obj(kv(k, inner[0])))
+				if mode == modeFull {
+					out = append(out, obj(kv(k, last)), obj(kv(k, inner[0]), kv("k", inner[0])))
+				}
+			}
+		}
+	case kStructSliceMap:
+		last := inner[len(inner)-1]
+		out = append(out, obj(kv("k", arr(inner[0]))), nil)
+		for _, d := range inner[1:] {
+			out = append(out, obj(kv("k", arr(d))))
+		}
+		if mode == modeFull {
+			for _, d := range inner {
+				out = append(out, obj(kv("k", arr(inner[0], d))), obj(kv("K1", arr(inner[0])), kv("k2", arr(d))))
+			}
+		}
+		out = append(out, obj(kv("k", arr(inner[0], last))), obj(kv("K1", arr(inner[0])), kv("k2", arr(last, inner[0]))), obj(kv("k", arr())), obj(),
+			obj(kv("k", inner[0])), obj(kv("k", num("7"))), obj(kv("k", arr(num("7")))), obj(kv("k", null())), obj(kv("k", arr(null()))), obj(kv("k", arr(inner[0], null()))))
+		for _, k := range nameKeys(borrowedNames(f, ctx, mode), mode) {
+			out = append(out, obj(kv(k, arr(inner[0]))))
+			if mode == modeFull {
+				out = append(out, obj(kv(k, arr(inner[0], last))), obj(kv(k, arr(inner[0])), kv("k", arr(inner[0]))))
+			}
+		}
 	case kStructSlice2:
 		last := inner[len(inner)-1]
 		out = append(out, arr(arr(inner[0])), nil)
@@ -594,11 +656,19 @@ func fieldValues(f FieldSpec, mode int) []*Node {
 		out = append(out, wrap(inner[0], last), arr(obj(kv("K1", arr(inner[0])), kv("k2", arr(last, inner[0])))), arr(obj(kv("k", arr(inner[0]))), obj(kv("k", arr()))),
 			wrap(), arr(obj()), arr(), arr(obj(kv("k", inner[0]))), arr(arr(inner[0])), arr(obj(kv("k", arr(num("7"))))), arr(obj(kv("k", num("7")))),
 			arr(obj(kv("k", null()))), arr(obj(kv("k", arr(null())))))
+		if mode != modeTiny {
+			for _, k := range nameKeys(borrowedNames(f, ctx, mode), mode) {
+				out = append(out, wrap2(k, inner[0]))
+				if mode == modeFull {
+					out = append(out, wrap2(k, inner[0], last), arr(obj(kv(k, arr(inner[0]))), obj(kv("k", arr(last)))))
+				}
+			}
+		}
 	}
 	// wrong-kind values for the composite itself
 	if mode == modeFull {
 		out = append(out, num("7"), str("x"), boolean(true), null())
-		if f.Kind == kStruct || f.Kind == kStructMap {
+		if f.Kind == kStruct || f.Kind == kStructMap || f.Kind == kStructPtrMap || f.Kind == kStructSliceMap {
 			out = append(out, arr())
 		} else {
 			out = append(out, obj())
@@ -609,16 +679,118 @@ func fieldValues(f FieldSpec, mode int) []*Node {
 	return dedupe(out)
 }
 
+// fieldKeys: the document keys of the fields of s (embedded structs flattened).
+func fieldKeys(s *StructSpec) []string {
+	var out []string
+	for _, f := range s.Fields {
+		if f.Kind == kEmbed {
+			out = append(out, fieldKeys(f.Inner)...)
+		} else {
+			out = append(out, f.Key())
+		}
+	}
+	return out
+}
+
+// wrap2: [{key: [ds...]}], a value of a []map[string][]struct field.
+func wrap2(key string, ds ...*Node) *Node { return arr(obj(kv(key, arr(ds...)))) }
+
+// borrowedNames: the field names the keys of map-typed field f are (also) drawn from: the fields
+// of the element struct, the field itself and its siblings (ctx = the keys of the struct f lives
+// in). The reduced documents of two-field types leave out the field's own name and use only the
+// first field of the element struct.
+func borrowedNames(f FieldSpec, ctx []string, mode int) []string {
+	full := mode == modeFull || mode == modeFullBase
+	var names []string
+	if f.Inner != nil {
+		names = fieldKeys(f.Inner)
+		if !full && len(names) > 1 {
+			names = names[:1]
+		}
+	}
+	for _, n := range ctx {
+		if full || n != f.Key() {
+			names = append(names, n)
+		}
+	}
+	return names
+}
+
+// nameKeys: map keys (user data) that are spelled like struct-field names: every given name in
+// lower, declared, UPPER and sWAPPED case (reduced documents: lower case and one spelling that is
+// not lower case). Map keys are data; what is demanded of them is only that every format and
+// every spelling of the STRUCT-FIELD keys treats them alike.
+func nameKeys(names []string, mode int) []string {
+	seen := map[string]bool{}
+	var out []string
+	add := func(k string) {
+		if !seen[k] {
+			seen[k] = true
+			out = append(out, k)
+		}
+	}
+	for _, n := range names {
+		if mode == modeFull || mode == modeFullBase {
+			for _, v := range []int{1, 0, 2, 3} {
+				add(recaseKey(n, v))
+			}
+			continue
+		}
+		add(recaseKey(n, 1))
+		if n != recaseKey(n, 1) {
+			add(n)
+		} else {
+			add(recaseKey(n, 2))
+		}
+	}
+	return out
+}
+
+// fieldNameSet: every name (lower-cased) a field of the generated family can have; a map key in
+// this set is labelled n / N (instead of k / K) in class keys.
+var fieldNameSet = func() map[string]bool {
+	m := map[string]bool{}
+	for _, sl := range slots {
+		for _, n := range []string{sl.goName, sl.tag, sl.in1Go, sl.in1Tag, sl.in2Go, sl.in2Tag} {
+			m[strings.ToLower(n)] = true
+		}
+	}
+	for _, n := range l1Tags {
+		m[strings.ToLower(n)] = true
+	}
+	for _, n := range []string{"alpha", "beta", "val", "aux"} { // the canonical names of shrunk cases
+		m[n] = true
+	}
+	delete(m, "")
+	return m
+}()
+
+// keyLabel: how a map key (user data) appears in a class key: k / K = some key in lower / other
+// case, n / N = a key spelled like a field name of the family.
+func keyLabel(key string) string {
+	low := strings.ToLower(key)
+	switch {
+	case fieldNameSet[low] && key == low:
+		return "n"
+	case fieldNameSet[low]:
+		return "N"
+	case key == low:
+		return "k"
+	}
+	return "K"
+}
+
 // structCombos: every combination of member lists for the fields of s (embedded structs are
 // flattened into the parent object, as both go-zero and encoding/json do).
 func structCombos(s *StructSpec, mode int) [][]KV {
 	combos := [][]KV{nil}
+	ctx := fieldKeys(s)
 	for _, f := range s.Fields {
 		var alts [][]KV
 		if f.Kind == kEmbed {
 			alts = structCombos(f.Inner, embedMode(mode, f.Inner))
 		} else {
-			for _, v := range fieldValues(f, mode) {
+			for _, v := range fieldValues(f, mode, ctx) {
 				if v == nil {
 					alts = append(alts, nil)
 				} else {
